@@ -86,7 +86,7 @@ func c06RunStream(handler bool, stream []byte) c06StreamObs {
 		switch e.Kind {
 		case "hand":
 			o.Events = append(o.Events, "Hand "+cLibMsg(e.Msg))
-			o.Desc = append(o.Desc, fmt.Sprintf("hand(q%d,id%d)", e.Msg.QoS, e.Msg.ID))
+			o.Desc = append(o.Desc, fmt.Sprintf("hand(q%d,id%d,topic=%x,payload=%x)", e.Msg.QoS, e.Msg.ID, e.Msg.Topic, e.Msg.Payload))
 		case "write":
 			id := 0
 			if len(e.Pkt) >= 4 {
@@ -123,7 +123,15 @@ func runC06Child(cfg *runCfg) error {
 				return jerr
 			}
 			fmt.Fprintf(os.Stderr, "CASE %s\n", line[:min(len(line), 200)])
-			o := c06RunInflight(&sc)
+			var o interface{}
+			switch sc.Mode {
+			case "exit":
+				o = c06RunExit(sc.Handler, sc.Stream)
+			case "alloc":
+				o = c06RunAlloc(sc.BodyLen)
+			default:
+				o = c06RunInflight(&sc)
+			}
 			b, _ := json.Marshal(o)
 			out.Write(b)
 			out.WriteByte('\n')
@@ -188,6 +196,19 @@ func (c *c06Child) run(handler bool, stream []byte) (c06StreamObs, bool) {
 	return o, true
 }
 
+// runJSON sends a scenario and decodes the child's answer into out
+func (c *c06Child) runJSON(sc *c06Scenario, out interface{}) bool {
+	b, _ := json.Marshal(sc)
+	if _, err := fmt.Fprintf(c.stdin, "%s\n", b); err != nil {
+		return false
+	}
+	line, err := c.stdout.ReadString('\n')
+	if err != nil {
+		return false
+	}
+	return json.Unmarshal([]byte(line), out) == nil
+}
+
 func (c *c06Child) runInflight(sc *c06Scenario) (c06InflightObs, bool) {
 	b, _ := json.Marshal(sc)
 	if _, err := fmt.Fprintf(c.stdin, "%s\n", b); err != nil {
@@ -228,6 +249,95 @@ func (c *c06Child) kill() string {
 }
 
 // ---------- generators ----------
+
+// c06Q2Streams: an inbound QoS 2 PUBLISH with a small payload of distinct bytes, then 1-4 further
+// small packets (PUBLISH QoS 0/1/2 with other payloads of the same, a smaller and a larger size,
+// stray acknowledgements, PINGRESP with and without a body, CONNACK again), then its PUBREL —
+// as a complete well-formed stream and as the well-formed prefix of a malformed packet. The
+// message must be handed over at the PUBREL with the bytes it was sent with.
+func c06Q2Streams(r *rand.Rand, nRandom int) (out [][]byte, labels []string) {
+	between := func(kind int, n int, seed byte) []byte {
+		pl := make([]byte, n)
+		for i := range pl {
+			pl[i] = seed ^ byte(0x55+i*3)
+		}
+		switch kind {
+		case 0:
+			return encPublish(inMsg{Topic: []byte("x"), QoS: 0, Payload: pl})
+		case 1:
+			return encPublish(inMsg{Topic: []byte("other/topic"), QoS: 1, ID: 300, Payload: pl})
+		case 2:
+			return encPublish(inMsg{Topic: []byte("q"), QoS: 2, ID: 301, Payload: pl})
+		case 3:
+			return encID(0x40, 9)
+		case 4:
+			return encFrame(0x90, append([]byte{0, 9}, pl...))
+		case 5:
+			return encID(0xB0, 9)
+		case 6:
+			return []byte{0xD0, 0}
+		case 7:
+			return encFrame(0xD0, pl)
+		case 8:
+			return []byte{0x20, 2, 0, 0}
+		case 9:
+			return encID(0x62, 302) // PUBREL of an identifier that is not open
+		case 10:
+			return encID(0x50, 9)
+		default:
+			return encID(0x70, 9)
+		}
+	}
+	stream := func(psize int, tlen int, mids [][]byte, bad []byte, tail bool) []byte {
+		pl := make([]byte, psize)
+		for i := range pl {
+			pl[i] = byte(0xA0 + i)
+		}
+		topic := []byte("exactly/once/topic")[:tlen]
+		s := encPublish(inMsg{Topic: topic, QoS: 2, ID: 7, Payload: pl})
+		for _, m := range mids {
+			s = append(s, m...)
+		}
+		s = append(s, encID(0x62, 7)...)
+		if tail {
+			s = append(s, encPublish(inMsg{Topic: []byte("after"), QoS: 0, Payload: []byte{0xEE}})...)
+		}
+		return append(s, bad...)
+	}
+	// every kind of packet in between x payload size of the parked message x smaller/same/larger
+	for _, psize := range []int{1, 4, 20} {
+		for kind := 0; kind < 12; kind++ {
+			for _, n := range []int{psize - 1, psize, psize + 9} {
+				if n < 0 || (kind != 0 && kind != 1 && kind != 2 && kind != 4 && kind != 7 && n != psize) {
+					continue
+				}
+				mid := between(kind, n, byte(kind*16+n))
+				out = append(out, stream(psize, 5, [][]byte{mid}, nil, false))
+				labels = append(labels, "q2-parked:complete")
+				out = append(out, stream(psize, 5, [][]byte{mid}, []byte{0xF0, 0}, false))
+				labels = append(labels, "q2-parked:then-malformed")
+			}
+		}
+	}
+	// nothing in between: the PUBREL itself is the next packet
+	out = append(out, stream(20, 1, nil, nil, true), stream(2, 1, nil, []byte{0x90, 0}, false))
+	labels = append(labels, "q2-parked:complete", "q2-parked:then-malformed")
+	for i := 0; i < nRandom; i++ {
+		var mids [][]byte
+		for k := 1 + r.Intn(4); k > 0; k-- {
+			mids = append(mids, between(r.Intn(12), r.Intn(30), byte(r.Intn(256))))
+		}
+		var bad []byte
+		lab := "q2-parked:complete"
+		if r.Intn(2) == 0 {
+			bad, _ = c06BadPacket(r)
+			lab = "q2-parked:then-malformed"
+		}
+		out = append(out, stream(1+r.Intn(24), 1+r.Intn(18), mids, bad, r.Intn(2) == 0))
+		labels = append(labels, lab)
+	}
+	return out, labels
+}
 
 // c06Frags: pieces of a topic — ASCII, complete multi-byte characters, and every way UTF-8 can
 // be ill-formed (stray continuation byte, truncated lead, overlong forms, surrogate, F8..FF).
@@ -281,15 +391,26 @@ func c06HighTopics() [][]byte {
 	return out
 }
 
+// c06Payload: n bytes, distinct per call (a counter byte pattern), never all equal
+func c06Payload(r *rand.Rand, n int) []byte {
+	p := make([]byte, n)
+	b := byte(r.Intn(256))
+	for i := range p {
+		p[i] = b + byte(i*7)
+	}
+	return p
+}
+
 func c06GoodPacket(r *rand.Rand) []byte {
 	id := uint16(1 + r.Intn(3))
+	sizes := []int{0, 1, 2, 3, 5, 9, 17, 40}
 	switch r.Intn(9) {
 	case 0:
-		return encPublish(inMsg{Topic: []byte("t/a"), QoS: 0, Payload: []byte{byte(r.Intn(256))}})
+		return encPublish(inMsg{Topic: []byte("t/a"), QoS: 0, Payload: c06Payload(r, sizes[1+r.Intn(7)])})
 	case 1:
-		return encPublish(inMsg{Topic: []byte("é"), QoS: 1, ID: id, Payload: []byte{1, 2}, Dup: r.Intn(2) == 0})
+		return encPublish(inMsg{Topic: []byte("é"), QoS: 1, ID: id, Payload: c06Payload(r, sizes[r.Intn(8)]), Dup: r.Intn(2) == 0})
 	case 2:
-		return encPublish(inMsg{Topic: []byte("q2"), QoS: 2, ID: id, Retain: true, Payload: nil})
+		return encPublish(inMsg{Topic: []byte("q2"), QoS: 2, ID: id, Retain: true, Payload: c06Payload(r, sizes[r.Intn(8)])})
 	case 3:
 		return encID(0x62, id)
 	case 4:
@@ -344,7 +465,7 @@ func c06BadPacket(r *rand.Rand) ([]byte, string) {
 
 func runC06(cfg *runCfg) error {
 	r := rand.New(rand.NewSource(cfg.seed))
-	cf := newCasesFile("C06", "Codec", "Inbound", "Parse", "ParseSpec", "ParsePending", "CheckC06")
+	cf := newCasesFile("C06", "Codec", "Inbound", "Parse", "ParseSpec", "ParsePending", "ParseExit", "CheckC06")
 	m := &meta{Property: "C06", Distribution: map[string]interface{}{}, Families: map[string][]interface{}{}}
 	dist := map[string]int{}
 
@@ -487,6 +608,14 @@ func runC06(cfg *runCfg) error {
 	for i, t := range c06HighTopics() {
 		s := append(append([]byte{}, encPublish(inMsg{Topic: t, QoS: byte(i % 2), ID: 9, Payload: []byte{7}})...), good2...)
 		scs = append(scs, sc{true, s, "high-bytes-no-nul"})
+	}
+	nQ2Rand := 40
+	if cfg.tier != "quick" {
+		nQ2Rand = 600
+	}
+	q2s, q2l := c06Q2Streams(r, nQ2Rand)
+	for i, s := range q2s {
+		scs = append(scs, sc{i%9 != 8, s, q2l[i]})
 	}
 	for i := 0; i < nStream; i++ {
 		var s []byte
@@ -633,6 +762,119 @@ func runC06(cfg *runCfg) error {
 	cf.result("V_inflight", "c06_inflight_violations inflight_cases")
 	cf.result("M_inflight", "c06_inflight_mismatches inflight_cases")
 
+	// ---- the end of the link on a transport whose Close() blocks ----
+	child, err = c06Spawn()
+	if err != nil {
+		return err
+	}
+	var exitStreams []sc
+	exitStreams = append(exitStreams,
+		sc{true, nil, "peer-closes"},
+		sc{true, []byte{0xF0, 0}, "reserved-type"},
+		sc{true, append(append([]byte{}, good1...), 0x90, 0), "good+suback-empty"},
+		sc{true, append(append([]byte{}, good1...), encPublish(inMsg{Topic: []byte("é\x00"), QoS: 0, Payload: []byte{1}})...), "good+nul-in-topic"},
+		sc{false, []byte{0x30, 0x80, 0x80, 0x80, 0x80, 0x01}, "length-5-bytes"},
+		sc{true, append(append([]byte{}, good1...), good2[:len(good2)-2]...), "good+truncated"},
+	)
+	nExit := 40
+	if cfg.tier != "quick" {
+		nExit = 400
+	}
+	for i := 0; i < nExit; i++ {
+		var s []byte
+		for k := r.Intn(3); k > 0; k-- {
+			s = append(s, c06GoodPacket(r)...)
+		}
+		label := "all-good"
+		if r.Intn(4) > 0 {
+			b, l := c06BadPacket(r)
+			s = append(s, b...)
+			label = l
+		}
+		exitStreams = append(exitStreams, sc{r.Intn(4) > 0, s, label})
+	}
+	perrOpt := func(class string) (string, bool) {
+		if class == "nil" || class == "" {
+			return "None", true
+		}
+		if p := cPerr(class); p != "" {
+			return "(Some " + p + ")", true
+		}
+		return "None", false
+	}
+	closedReported := func(states []string) (string, bool) {
+		for _, st := range states {
+			if strings.HasPrefix(st, "Closed:") {
+				v, ok := perrOpt(strings.TrimPrefix(st, "Closed:"))
+				return "(Some " + v + ")", ok
+			}
+		}
+		return "None", true
+	}
+	var exitCases []string
+	for _, c := range exitStreams {
+		var o c06ExitObs
+		if !child.runJSON(&c06Scenario{Mode: "exit", Handler: c.handler, Stream: c.stream}, &o) {
+			crash := child.kill()
+			nCrash++
+			o = c06ExitObs{Survived: false, Crash: crash}
+			child, err = c06Spawn()
+			if err != nil {
+				return err
+			}
+		}
+		if strings.HasPrefix(o.Crash, "connect:") {
+			return fmt.Errorf("exit scenario could not connect: %s", o.Crash)
+		}
+		e1, ok1 := perrOpt(o.ErrAtEntry)
+		e2, ok2 := perrOpt(o.ErrAtDone)
+		rep, ok3 := closedReported(o.StatesAtDone)
+		alive := o.Survived && len(o.Stuck) == 0 && ok1 && ok2 && ok3
+		exitCases = append(exitCases, cTuple(cBool(c.handler), cBytes(c.stream), cBool(alive), cBool(o.DoneAtEntry), cBool(o.DoneWhileHeld), e1, e2, rep))
+		dist["exit_"+c.label]++
+		m.Families["exit"] = append(m.Families["exit"], map[string]interface{}{"transport": "Close() blocks until released", "handler": c.handler,
+			"stream": fmt.Sprintf("%x", c.stream), "kind": c.label, "observation": o})
+	}
+	child.kill()
+	cf.def("exit_cases", "list exit_case", cList(exitCases))
+	cf.result("V_exit", "c06_exit_violations exit_cases")
+	cf.result("M_exit", "c06_exit_mismatches exit_cases")
+
+	// ---- bytes allocated for one big packet that really arrives ----
+	child, err = c06Spawn()
+	if err != nil {
+		return err
+	}
+	allocSizes := []int{144 << 20}
+	if cfg.tier != "quick" {
+		allocSizes = []int{1 << 20, 70 << 20, 129 << 20, 144 << 20, 268435455}
+	}
+	var allocCases []string
+	for _, n := range allocSizes {
+		var o c06AllocObs
+		if !child.runJSON(&c06Scenario{Mode: "alloc", BodyLen: n}, &o) {
+			crash := child.kill()
+			nCrash++
+			o = c06AllocObs{Survived: false, Crash: crash, BodyLen: n, Header: append([]byte{0x30}, encVarint(n)...)}
+			child, err = c06Spawn()
+			if err != nil {
+				return err
+			}
+		}
+		if strings.HasPrefix(o.Crash, "connect:") {
+			return fmt.Errorf("alloc scenario could not connect: %s", o.Crash)
+		}
+		ok := o.Survived && o.Intact && o.Stuck == "" && o.Err == "EOF"
+		allocCases = append(allocCases, cTuple(cBytes(o.Header), fmt.Sprint(n), cBool(ok), fmt.Sprint(o.Delta)))
+		dist[fmt.Sprintf("alloc_body_%d", n)]++
+		m.Families["alloc"] = append(m.Families["alloc"], map[string]interface{}{"packet": fmt.Sprintf("PUBLISH QoS 0, topic ZZ, body of %d bytes 5A really delivered", n),
+			"header_hex": fmt.Sprintf("%x", o.Header), "observation": o, "bound": 268435455 + 1048576})
+	}
+	child.kill()
+	cf.def("alloc_cases", "list alloc_case", cList(allocCases))
+	cf.result("V_alloc", "c06_alloc_violations alloc_cases")
+	cf.result("M_alloc", "c06_alloc_mismatches alloc_cases")
+
 	for k, v := range dist {
 		m.Distribution[k] = v
 	}
@@ -642,9 +884,9 @@ func runC06(cfg *runCfg) error {
 	m.Distribution["parse_random"] = nRandParse
 	m.Distribution["parse_panics"] = nPanic
 	m.Distribution["stream_crashes"] = nCrash
-	m.Evaluations = len(parseCases) + len(streamCases) + len(inflightCases)
-	m.DistinctNontrivial = nEnumParse + nNulParse + len(streamCases) - dist["stream_all-good"] + len(inflightCases)
-	m.Rule = fmt.Sprintf("parsers: every (type, flag) x every body over {00,01,02,80,FF} up to length %d through the hook VerifParse (panics recovered), plus %d random/structured bodies, plus %d PUBLISH bodies whose topic mixes multi-byte / ill-formed UTF-8 fragments with the byte 00 at every position (and the same fragments without 00); streams: corpus of the repaired defects, good PUBLISH + PUBLISH with such a topic + good PUBLISH, then good packets followed by a malformed packet of 14 kinds / truncation / one-byte mutation / random bytes, fed to a connected BaseClient in a child process with a 6 GiB address-space limit (a crash is attributed to the exact stream); in flight: 1-3 blocking calls (Subscribe with 1-4 filters, Unsubscribe, Publish QoS 1/2, Ping) on a connected BaseClient in a child process, the peer answers with hostile acknowledgements carrying their identifiers (SUBACK with 0/n-1/n+1/n+5/255 codes, failure and illegal codes, flags, short and long bodies, duplicates, other kinds, CONNACK again, truncation), enumerated per request kind plus random combinations. distinct_nontrivial = enumerated parser inputs (distinct by construction) + streams that are not all-good + in-flight scenarios", L, nRandParse, nNulParse)
+	m.Evaluations = len(parseCases) + len(streamCases) + len(inflightCases) + len(exitCases) + len(allocCases)
+	m.DistinctNontrivial = nEnumParse + nNulParse + len(streamCases) - dist["stream_all-good"] + len(inflightCases) + len(exitCases) + len(allocCases)
+	m.Rule = fmt.Sprintf("parsers: every (type, flag) x every body over {00,01,02,80,FF} up to length %d through the hook VerifParse (panics recovered), plus %d random/structured bodies, plus %d PUBLISH bodies whose topic mixes multi-byte / ill-formed UTF-8 fragments with the byte 00 at every position (and the same fragments without 00); streams: corpus of the repaired defects, good PUBLISH + PUBLISH with such a topic + good PUBLISH, an inbound QoS 2 PUBLISH (payload of 1/4/20 distinct bytes) + 1-4 further small packets of 12 kinds (PUBLISH QoS 0/1/2 with smaller/equal/larger payloads, stray acknowledgements, PINGRESP, CONNACK) + its PUBREL, complete and as prefix of a malformed packet, then good packets followed by a malformed packet of 14 kinds / truncation / one-byte mutation / random bytes, fed to a connected BaseClient in a child process with a 6 GiB address-space limit (a crash is attributed to the exact stream); in flight: 1-3 blocking calls (Subscribe with 1-4 filters, Unsubscribe, Publish QoS 1/2, Ping) on a connected BaseClient in a child process, the peer answers with hostile acknowledgements carrying their identifiers (SUBACK with 0/n-1/n+1/n+5/255 codes, failure and illegal codes, flags, short and long bodies, duplicates, other kinds, CONNACK again, truncation), enumerated per request kind plus random combinations; exit: streams (peer closes, malformed kinds, truncation) into a client whose transport blocks in Close() until released, with Done(), Err() and the callback log sampled inside Close(), while it is held, and right after Done() is seen closed; alloc: one QoS 0 PUBLISH whose body (144 MiB; thorough also 1, 70, 129 MiB and 268,435,455 bytes) is generated into the buffers the reader passes to Read, runtime.MemStats.TotalAlloc difference around it. distinct_nontrivial = enumerated parser inputs (distinct by construction) + streams that are not all-good + in-flight scenarios", L, nRandParse, nNulParse)
 	m.Exhaustive = true
 	if err := cf.write(cfg.outDir); err != nil {
 		return err
